@@ -25,7 +25,8 @@ fn main() {
     pipe::install_panic_hook();
     if !args[0].to_uppercase().contains("WORKER") {
         util::cleanup_stale_scratch();
-        pipe::start_watchdog(180);
+        // long enough for the slowest legitimate run (a 65 536-slot vftable takes about a second)
+        pipe::start_watchdog(60);
     }
     let id = args[0].to_uppercase();
     let (tier, only) = if args[1] == "--replay" {
@@ -43,6 +44,7 @@ fn main() {
     } else {
         (args[1].clone(), None)
     };
+    std::env::set_var("VERIF_TIER", &tier);
     let code = match id.as_str() {
         "C01" | "C02" => checks::layout_rustc::run(&id, &tier, only.as_ref()),
         "SETUP" => match rustc_oracle::ensure_sysroot(rustc_oracle::Target::I686Msvc).and_then(|_| rustc_oracle::ensure_sysroot(rustc_oracle::Target::X64Msvc)) {
